@@ -8,6 +8,13 @@
      "exchange"  HttpStreamSession.exchange(): one POST, never retried; a single re-POST after a 413 once the
                  body has been externalised through the upload-URL flow
      "cancel"    HttpStreamSession.cancel(): one best-effort POST, every failure swallowed
+     "cancel2"   cancel() called twice on one session: the second call sends nothing
+     "xcancel"   exchange() followed by cancel() on the same session (the cancel POST is a "csend" event)
+     "warm"      exchange() on a session whose cached capabilities already say the body is too large: the body is
+                 externalised first, then POSTed (and once more after a 413)
+     "call"      the retry loop as reached through a public entry point (cfg.ep): unary call, stream init,
+                 producer continuation, capability probe, upload-URL vending -- with a retry configuration or
+                 none at all (rset "off")
 
    The environment (server / proxy / network) chooses the outcome of every request from
         {connect error, timeout, disconnect before any response byte, other protocol error}
@@ -28,6 +35,7 @@ BIG == 1000000
 \* ------------------------------------------------------------------ configuration
 RSet(n) == CASE n = "default" -> {"s429", "s502", "s503", "s504"}
              [] n = "none"    -> {}
+             [] n = "off"     -> {}           \* no HttpRetryConfig at all: a single send, responses returned as they are
              [] n = "custom"  -> {"s500", "s429"}
              [] n = "wide"    -> {"s413", "s429", "s500", "s502", "s503", "s504", "o4xx", "o5xx", "o3xx"}
 Base(b) == CASE b = "b2m4" -> 2 [] b = "b0m4" -> 0 [] b = "b2m32" -> 2 [] b = "b2m0" -> 2 [] b = "b8m4" -> 8
@@ -38,36 +46,52 @@ BMax(b) == CASE b = "b2m4" -> 4 [] b = "b0m4" -> 4 [] b = "b2m32" -> 32 [] b = "
 StAll == {"ok2xx", "o3xx", "s413", "s429", "s500", "s502", "s503", "s504", "o4xx", "o5xx"}
 RA7 == {"absent", "secs_small", "secs_big", "neg", "nan", "inf", "date_far", "garbage"}
 RAAll == RA7 \cup {"secs_mid", "neginf", "date_past", "date_near", "date_naive"}
-ExcAll == {"connect", "timeout", "disconnect", "proto"}
+\* "proto": another protocol error (bytes were flowing); "neterr": a read / write / close error on an established
+\* connection -- neither is a connection error, a timeout or a disconnect before any response byte
+ExcAll == {"connect", "timeout", "disconnect", "proto", "neterr"}
 ExtAll == {"ok", "no_support", "caps_err", "vend_err", "put_err"}
 Grid(sl) ==
   CASE sl = "main" ->            \* quick: flags x max_retries over the statement's alphabet
          [mode |-> {"retry"}, mr |-> {0, 1, 2}, conn |-> BOOLEAN, ra |-> BOOLEAN, rset |-> {"default"},
-          bo |-> {"b2m4"}, st |-> {"ok2xx", "s413", "s503"}, raa |-> RA7, exc |-> ExcAll]
+          bo |-> {"b2m4"}, st |-> {"ok2xx", "s413", "s503"}, raa |-> RA7, exc |-> ExcAll, ep |-> {"-"}]
     [] sl = "statuses" ->        \* quick: every status class, every retryable set, degenerate backoff_max
          [mode |-> {"retry"}, mr |-> {0, 1}, conn |-> {TRUE}, ra |-> {TRUE},
           rset |-> {"default", "none", "custom", "wide"}, bo |-> {"b2m4", "b2m0"}, st |-> StAll,
-          raa |-> {"absent", "secs_small"}, exc |-> {"connect"}]
+          raa |-> {"absent", "secs_small"}, exc |-> {"connect"}, ep |-> {"-"}]
     [] sl = "stream" ->          \* quick: exchange / cancel
          [mode |-> {"exchange", "cancel"}, mr |-> {0, 2}, conn |-> {TRUE}, ra |-> {TRUE},
           rset |-> {"default", "wide"}, bo |-> {"b2m4"}, st |-> {"ok2xx", "s413", "s503", "s500", "o4xx"},
-          raa |-> RA7, exc |-> ExcAll]
+          raa |-> RA7, exc |-> ExcAll, ep |-> {"-"}]
     [] sl = "ra_depth" ->        \* thorough: every Retry-After shape
          [mode |-> {"retry"}, mr |-> {0, 1, 2}, conn |-> {TRUE}, ra |-> BOOLEAN, rset |-> {"default"},
-          bo |-> {"b2m4"}, st |-> {"ok2xx", "s429", "s503"}, raa |-> RAAll, exc |-> ExcAll]
+          bo |-> {"b2m4"}, st |-> {"ok2xx", "s429", "s503"}, raa |-> RAAll, exc |-> ExcAll, ep |-> {"-"}]
     [] sl = "status_breadth" ->  \* thorough: every status class x every retryable set
          [mode |-> {"retry"}, mr |-> {0, 1, 2}, conn |-> {TRUE}, ra |-> {TRUE},
           rset |-> {"default", "none", "custom", "wide"}, bo |-> {"b2m4"}, st |-> StAll,
-          raa |-> {"absent", "secs_small", "inf"}, exc |-> ExcAll]
+          raa |-> {"absent", "secs_small", "inf"}, exc |-> ExcAll, ep |-> {"-"}]
     [] sl = "backoff_breadth" -> \* thorough: every (base, max) pair
          [mode |-> {"retry"}, mr |-> {0, 1, 2}, conn |-> BOOLEAN, ra |-> BOOLEAN, rset |-> {"default"},
           bo |-> {"b0m4", "b2m32", "b2m0", "b8m4"}, st |-> {"ok2xx", "s413", "s503"},
-          raa |-> RA7, exc |-> ExcAll]
+          raa |-> RA7, exc |-> ExcAll, ep |-> {"-"}]
     [] sl = "stream_full" ->     \* thorough: exchange / cancel over the full alphabet
          [mode |-> {"exchange", "cancel"}, mr |-> {0, 2}, conn |-> {TRUE}, ra |-> {TRUE},
-          rset |-> {"default", "wide"}, bo |-> {"b2m4"}, st |-> StAll, raa |-> RAAll, exc |-> ExcAll]
+          rset |-> {"default", "wide"}, bo |-> {"b2m4"}, st |-> StAll, raa |-> RAAll, exc |-> ExcAll, ep |-> {"-"}]
+    [] sl = "deep" ->            \* the default max_retries = 3: a fourth attempt, backoff 2^3
+         [mode |-> {"retry"}, mr |-> {3}, conn |-> {TRUE}, ra |-> {TRUE}, rset |-> {"default"}, bo |-> {"b2m4", "b2m32"},
+          st |-> {"ok2xx", "s503"}, raa |-> {"absent", "inf"}, exc |-> {"connect", "disconnect", "neterr"},
+          ep |-> {"-"}]
+    [] sl = "calls" ->           \* public entry points that go through the retry loop, with and without a configuration
+         [mode |-> {"call"}, mr |-> {0, 2}, conn |-> {TRUE}, ra |-> {TRUE}, rset |-> {"default", "off"},
+          bo |-> {"b2m4"}, st |-> {"ok2xx", "s503", "s500"}, raa |-> {"absent", "secs_small"},
+          exc |-> {"connect", "disconnect", "proto", "neterr"},
+          ep |-> {"unary", "init", "continuation", "capabilities", "upload_urls"}]
+    [] sl = "streamops" ->       \* operation sequences on one stream session
+         [mode |-> {"cancel2", "xcancel", "warm"}, mr |-> {2}, conn |-> {TRUE}, ra |-> {TRUE}, rset |-> {"default"},
+          bo |-> {"b2m4"}, st |-> {"ok2xx", "s413", "s503", "s500"}, raa |-> {"absent", "secs_small"},
+          exc |-> {"connect", "timeout", "disconnect", "neterr"}, ep |-> {"-"}]
 ConfigsOf(sl) == LET g == Grid(sl) IN
-                   [sl : {sl}, mode : g.mode, mr : g.mr, conn : g.conn, ra : g.ra, rset : g.rset, bo : g.bo]
+                   [sl : {sl}, mode : g.mode, mr : g.mr, conn : g.conn, ra : g.ra, rset : g.rset, bo : g.bo,
+                    ep : g.ep]
 Configs == UNION {ConfigsOf(sl) : sl \in Slices}
 
 \* ------------------------------------------------------------------ fault alphabet
@@ -118,22 +142,27 @@ VARIABLES cfg, pc, attempt, log, result, win
 vars == <<cfg, pc, attempt, log, result, win>>
 None == [k |-> "none", v |-> "-"]
 
-InitWith(c) == /\ cfg = c /\ pc = "send" /\ attempt = 0 /\ log = <<>> /\ result = None /\ win = NoWin
+InitWith(c) == /\ cfg = c /\ pc = (IF c.mode = "warm" THEN "ext" ELSE "send") /\ attempt = 0 /\ log = <<>> /\ result = None /\ win = NoWin
 Init == \E c \in Configs : InitWith(c)
 
 \* what the loop treats as transient (faithful to the configuration flags)
 Transient(c, o) == \/ o.k = "status" /\ o.s \in RSet(c.rset)
-                   \/ o.k \in {"connect", "timeout", "disconnect"} /\ c.conn
+                   \/ o.k \in {"connect", "timeout", "disconnect"} /\ c.conn /\ c.rset # "off"
 Final(c, o) == IF o.k = "status"
                THEN IF o.s \in RSet(c.rset) THEN [k |-> "transient", v |-> o.s] ELSE [k |-> "resp", v |-> o.s]
                ELSE [k |-> "raise", v |-> o.k]
+\* what the entry point makes of the loop's result: a response that is not a 2xx Arrow stream is an RpcError
+\* (the capability probe reads headers off any response)
+CallFinal(c, o) == LET f == Final(c, o) IN
+                     IF f.k = "resp" /\ f.v # "ok2xx" /\ c.ep # "capabilities" THEN [k |-> "raise", v |-> "rpc"] ELSE f
 
 \* ---- mode "retry": one iteration of the for-loop = Send, then (Sleep | End)
-Send(o) == /\ cfg.mode = "retry" /\ pc = "send"
+Send(o) == /\ cfg.mode \in {"retry", "call"} /\ pc = "send"
            /\ log' = Append(log, [e |-> "send", o |-> o])
            /\ IF Transient(cfg, o) /\ attempt < cfg.mr
               THEN /\ pc' = "sleep" /\ win' = Window(cfg, attempt, o) /\ UNCHANGED result
-              ELSE /\ pc' = "end" /\ result' = Final(cfg, o) /\ win' = NoWin
+              ELSE /\ pc' = "end" /\ win' = NoWin
+                   /\ result' = IF cfg.mode = "call" THEN CallFinal(cfg, o) ELSE Final(cfg, o)
            /\ UNCHANGED <<cfg, attempt>>
 
 SleepObs(dlo, dhi) == /\ pc = "sleep"
@@ -149,26 +178,36 @@ End == /\ pc = "end"
        /\ pc' = "done"
        /\ UNCHANGED <<cfg, attempt, result, win>>
 
-\* ---- modes "exchange" / "cancel": attempt counts the POSTs to .../exchange issued so far
-XFinal(c, o) == IF c.mode = "cancel" THEN [k |-> "resp", v |-> "swallowed"]
+\* ---- stream sessions: attempt counts the exchange POSTs issued so far
+ExchangeModes == {"exchange", "xcancel", "warm"}
+CancelModes == {"cancel", "cancel2"}
+XFinal(c, o) == IF c.mode \in CancelModes THEN [k |-> "resp", v |-> "swallowed"]
                 ELSE IF o.k = "status" THEN (IF o.s = "ok2xx" THEN [k |-> "resp", v |-> o.s]
                                                               ELSE [k |-> "raise", v |-> "rpc"])
                 ELSE [k |-> "raise", v |-> o.k]
-XPost(o) == /\ cfg.mode \in {"exchange", "cancel"} /\ pc = "send"
+\* after exchange() of an "xcancel" session comes its cancel()
+AfterExchange(c) == IF c.mode = "xcancel" THEN "csend" ELSE "end"
+XPost(o) == /\ cfg.mode \in ExchangeModes \cup CancelModes /\ pc = "send"
             /\ log' = Append(log, [e |-> "send", o |-> o])
             /\ attempt' = attempt + 1
-            /\ IF cfg.mode = "exchange" /\ attempt = 0 /\ o.k = "status" /\ o.s = "s413"
+            /\ IF cfg.mode \in ExchangeModes /\ attempt = 0 /\ o.k = "status" /\ o.s = "s413"
                THEN /\ pc' = "ext" /\ UNCHANGED result
-               ELSE /\ pc' = "end" /\ result' = XFinal(cfg, o)
+               ELSE /\ pc' = AfterExchange(cfg) /\ result' = XFinal(cfg, o)
             /\ UNCHANGED <<cfg, win>>
-\* 413 fallback: OPTIONS capability probe, upload-URL vending, PUT -- collapsed into one outcome
+\* externalisation of the body: OPTIONS capability probe (unless cached), upload-URL vending, PUT -- one outcome
 XExt(x) == /\ pc = "ext"
+           /\ (cfg.mode = "warm" => x \in {"ok", "vend_err", "put_err"})     \* capabilities are cached: no probe
            /\ log' = Append(log, [e |-> "ext", x |-> x])
            /\ IF x = "ok" THEN /\ pc' = "send" /\ UNCHANGED result
-                          ELSE /\ pc' = "end" /\ result' = [k |-> "raise", v |-> "ext"]
+                          ELSE /\ pc' = AfterExchange(cfg) /\ result' = [k |-> "raise", v |-> "ext"]
            /\ UNCHANGED <<cfg, attempt, win>>
+\* cancel() after exchange(): one best-effort POST whatever exchange() did; its outcome is swallowed
+XCancelPost(o) == /\ cfg.mode = "xcancel" /\ pc = "csend"
+                  /\ log' = Append(log, [e |-> "csend", o |-> o])
+                  /\ pc' = "end"
+                  /\ UNCHANGED <<cfg, attempt, result, win>>
 
-Next == \/ \E o \in OutcomesOf(cfg.sl) : Send(o) \/ XPost(o)
+Next == \/ \E o \in OutcomesOf(cfg.sl) : Send(o) \/ XPost(o) \/ XCancelPost(o)
         \/ Sleep
         \/ \E x \in ExtAll : XExt(x)
         \/ End
@@ -180,16 +219,20 @@ Sends(lg) == SelectSeq(lg, LAMBDA ev : ev.e = "send")
 StmtRetryable(c, o) == \/ o.k = "status" /\ o.s \in RSet(c.rset)
                        \/ o.k \in {"connect", "timeout", "disconnect"}
 
-SendsBounded(c, lg) == c.mode = "retry" => Len(Sends(lg)) <= c.mr + 1
+\* without a retry configuration (rset "off") nothing is retried: one send
+Budget(c) == IF c.rset = "off" THEN 1 ELSE c.mr + 1
+SendsBounded(c, lg) == c.mode \in {"retry", "call"} => Len(Sends(lg)) <= Budget(c)
 ResendOnlyAfterRetryable(c, lg) ==
-  c.mode = "retry" => \A i \in 2..Len(Sends(lg)) : StmtRetryable(c, Sends(lg)[i - 1].o)
+  c.mode \in {"retry", "call"} => \A i \in 2..Len(Sends(lg)) : StmtRetryable(c, Sends(lg)[i - 1].o)
 SleepWithinBackoffMax(c, lg) ==
   \A i \in 1..Len(lg) : lg[i].e = "sleep" => (~lg[i].nan /\ 0 <= lg[i].dlo /\ lg[i].dhi <= BMax(c.bo))
 ExchangeSentOnce(c, lg) ==
-  c.mode = "exchange" => LET p == Sends(lg) IN
+  c.mode \in ExchangeModes => LET p == Sends(lg) IN
                            /\ Len(p) <= 2
                            /\ Len(p) = 2 => (p[1].o.k = "status" /\ p[1].o.s = "s413")
-CancelSentOnce(c, lg) == c.mode = "cancel" => Len(Sends(lg)) <= 1
+CancelSentOnce(c, lg) ==
+  /\ c.mode \in CancelModes => Len(Sends(lg)) <= 1
+  /\ c.mode = "xcancel" => Len(SelectSeq(lg, LAMBDA ev : ev.e = "csend")) <= 1
 
 ClauseNames == {"SendsBounded", "ResendOnlyAfterRetryable", "SleepWithinBackoffMax", "ExchangeSentOnce",
                 "CancelSentOnce"}
@@ -210,7 +253,7 @@ InvCancelSentOnce == CancelSentOnce(cfg, log)
 InvSane == /\ (pc = "done" => result # None)
            /\ win.lo <= win.hi /\ 0 <= win.lo /\ win.hi <= BMax(cfg.bo)
            /\ attempt <= Max(cfg.mr, 2)
-           /\ Len(log) <= 2 * cfg.mr + 6
+           /\ Len(log) <= 2 * cfg.mr + 8
 
 \* complete behaviours, printed for the replay driver
 Emit == pc = "done" => PrintT("@@J@@" \o ToJson([cfg |-> cfg, log |-> log]))
